@@ -265,3 +265,8 @@ def cosim_layer(seed: int, n_cases: int) -> Dict[str, Any]:
 def dispatch_layer(seed: int, n_cases: int) -> Dict[str, Any]:
     """the real trip dispatcher on mixed states, every assignment certified (C12; dispatcher clauses of C10, C17, C20)"""
     return generic_layer("dispatch", "dispatch", seed, n_cases, 15487469)
+
+
+def router_layer(seed: int, n_cases: int) -> Dict[str, Any]:
+    """generated street graphs through the real OSMRoadNetwork router, routes and junction paths checked (C13, C14)"""
+    return generic_layer("router", "router", seed, n_cases, 32452867)
